@@ -1083,6 +1083,18 @@ def version_histories(ck: Ck, base: str, wd: str) -> None:
                                  {'history': 'never_read', 'cfg': cfg, 'header': hdr, 'seed': seed, 'feats': sorted(feats),
                                   'size': g2.size if g2 is not None else 3, 'hview': view, 'chosen': chosen2, 'diff': diff,
                                   'how': 'harness.c11_util.from_empty(base, dir, cfg, header, seed, feats, size, read_first=False); ./check C11 --replay <this file>'})
+                # the caller names a format of this header number before the empty lump is read (one format per layout and round, rotating)
+                cands = [v.name for v in B.StaticPropVersion if v.version == hdr and v.name in U.PROP_VERSIONS]
+                nm = cands[(U.CONFIGS.index(cfg) + rnd) % len(cands)]
+                res3, g3, chosen3 = U.from_empty(base, wd, cfg, hdr, seed, feats, 3, named=nm)
+                ck.count('histories_named_then_read_empty_then_assign')
+                for view, diff in res3.items():
+                    key = f'named-then-read-empty:{view}' + (f':{nm}' if view == 'props' or view.startswith('!') else '')
+                    ck.violation(key, f'static_prop_version = {nm} is set on a file with an empty static-prop lump (header number {hdr}, layout {cfg}), the lump is '
+                                      f'read, a world is assigned and saved; re-read by a fresh object: {diff}',
+                                 {'history': 'named', 'cfg': cfg, 'header': hdr, 'seed': seed, 'feats': sorted(feats), 'named': nm,
+                                  'size': g3.size if g3 is not None else 3, 'hview': view, 'chosen': chosen3, 'diff': diff,
+                                  'how': 'harness.c11_util.from_empty(base, dir, cfg, header, seed, feats, size, named=named); ./check C11 --replay <this file>'})
                 for view, diff in res.items():
                     where = 'v20' if cfg == 'v20' else 'not-v20'
                     key = f'from-empty-lump:{view}' + (f':header-{hdr}:bsp-{where}' if view == 'props' or view.startswith('!') else '')
@@ -1700,6 +1712,7 @@ def run(ck: Ck) -> None:
                     ck.explain(nm)
         if nm.startswith('instance:prop_format_') and (any(k.startswith('from-empty-lump:props') or k.startswith('from-empty-lump:!') or k.startswith('props')
                                                             or k.startswith('never-read-then-assign:props') or k.startswith('never-read-then-assign:!')
+                                                            or k.startswith('named-then-read-empty:props') or k.startswith('named-then-read-empty:!')
                                                             for k in keys) or hit_views & {'!read', '!save'}):
             ck.explain(nm)
         if nm.startswith('instance:prop_layout_agree:') or nm.startswith('instance:prop_fields_agree:'):
@@ -1716,8 +1729,9 @@ def replay(data: dict) -> int:
     base = os.path.join(wd, 'base.bsp')
     U.make_base(str(REPO / 'tests' / 'test_vec' / 'rot_main.bsp'), base)
     try:
-        if r.get('history') in ('from_empty', 'never_read'):
-            res, _g, chosen = U.from_empty(base, wd, r['cfg'], r['header'], r['seed'], set(r['feats']), r['size'], read_first=r['history'] == 'from_empty')
+        if r.get('history') in ('from_empty', 'never_read', 'named'):
+            res, _g, chosen = U.from_empty(base, wd, r['cfg'], r['header'], r['seed'], set(r['feats']), r['size'], read_first=r['history'] != 'never_read',
+                                           named=r.get('named'))
             print('format chosen after reading the empty lump:', chosen)
             print('implementation (read empty, assign, save, re-read) differences per view:', res or 'none')
             return 1 if r['hview'] in res else 0
